@@ -217,7 +217,7 @@ def check_ratio_statistics(repo: Repo, rep: Report, tier="quick"):
     n = 0
     specs = {
         "coverage": ((), lambda P: Fraction(sum(len(P.V(t)) for t in ids), len(ids) * len(shape.nodes))),
-        "node_contribution": (("A",), lambda P: Fraction(len(P.Tn("A")), len(ids))),
+        "node_contribution": (("B",), lambda P: Fraction(len(P.Tn("B")), len(ids))),      # B: two incident pairs (nested / staggered runs)
         "uniformity": ((), lambda P: _ratio(sum(len(P.Tn(u) & P.Tn(v)) for u, v in itertools.combinations(shape.nodes, 2)),
                                            sum(len(P.Tn(u) | P.Tn(v)) for u, v in itertools.combinations(shape.nodes, 2)))),
         "node_pair_uniformity": (("A", "B"), lambda P: _ratio(len(P.Tn("A") & P.Tn("B")), len(P.Tn("A") | P.Tn("B")))),
